@@ -237,9 +237,16 @@ func (x *Exec) pureApp(st *State, name string, f *ssa.Function, c *Contract, arg
 		targs = append(targs, x.share(a.T))
 		sorts = append(sorts, a.T.Sort)
 	}
+	inst := ""
+	if f != nil && len(f.TypeArgs()) > 0 {
+		// generic instance: one symbol per instantiation
+		for _, s := range sorts {
+			inst += "!" + strings.NewReplacer("(", "", ")", "", " ", "_").Replace(string(s))
+		}
+	}
 	mk := func(i int, t types.Type) Val {
 		rs := x.P.sortOf(t)
-		fn := x.declareFun(fmt.Sprintf("fn!%s!%d", name, i), sorts, rs)
+		fn := x.declareFun(fmt.Sprintf("fn!%s%s!%d", name, inst, i), sorts, rs)
 		return Val{T: x.share(App(fn, rs, targs...)), Ty: t}
 	}
 	if tup, ok := rt.(*types.Tuple); ok {
